@@ -5,6 +5,7 @@ import (
 	"flag"
 	"fmt"
 	"os"
+	"path/filepath"
 	"runtime"
 	"sort"
 	"time"
@@ -108,8 +109,9 @@ func main() {
 	tier := flag.String("tier", "quick", "quick|thorough")
 	seed := flag.Uint64("seed", 1, "seed")
 	out := flag.String("out", "", "result json")
-	driver := flag.String("driver", "/verif/_build/extract/driver", "model driver binary")
+	driver := flag.String("driver", verifRoot()+"/_build/extract/driver", "model driver binary")
 	replay := flag.String("replay", "", "replay file")
+	flag.StringVar(&ecoFilter, "eco", "", "comma-separated ecosystems (CORR only)")
 	flag.Parse()
 	if *replay != "" {
 		os.Exit(doReplay(*replay))
@@ -142,6 +144,18 @@ func main() {
 	} else {
 		os.Stdout.Write(b)
 	}
+}
+
+// verifRoot: the harness binary lives in <root>/_build/
+func verifRoot() string {
+	if r := os.Getenv("VERIF_ROOT"); r != "" {
+		return r
+	}
+	exe, err := os.Executable()
+	if err == nil {
+		return filepath.Dir(filepath.Dir(exe))
+	}
+	return "/verif"
 }
 
 func doReplay(path string) int {
